@@ -17,23 +17,24 @@ let parse_fops (s : string) : nat list =
 let dec_of_n (x : n) : string = string_of_int (int_of_n x)
 
 let () =
-  let snap = ref [] and st = ref xbuf_empty and target = ref "" and prev_wseq = ref N0 in
+  let snap = ref [] and yst = ref ybuf_empty and target = ref "" and prev_wseq = ref N0 in
   let pst = ref (pbuf_empty []) in
   let cps : (string, nat) Hashtbl.t = Hashtbl.create 16 in
   let n = ref 0 and mism = ref 0 and progs = ref 0 in
   let counts = Hashtbl.create 64 in
   let bump k = Hashtbl.replace counts k (1 + (try Hashtbl.find counts k with Not_found -> 0)) in
-  let status s = match int_of_nat s with 0 -> "ok" | 1 -> "err" | 2 -> "panic" | 3 -> "entrytoolarge" | _ -> "txntoolarge" in
+  let status s = match int_of_nat s with 0 -> "ok" | 1 -> "err" | 2 -> "panic" | 3 -> "entrytoolarge" | 4 -> "txntoolarge" | _ -> "keytoolarge" in
   read_lines (fun line ->
     match split_tab line with
     | "PROG" :: _ :: tg :: sn :: _ ->
-        incr progs; target := tg; snap := parse_kvs sn; st := xbuf_empty; pst := pbuf_empty []; Hashtbl.reset cps
+        incr progs; target := tg; snap := parse_kvs sn; yst := ybuf_empty; pst := pbuf_empty []; Hashtbl.reset cps
     | "O" :: pid :: idx :: kind :: rest ->
         let rec split acc l = match l with "=>" :: r -> (List.rev acc, r) | x :: r -> split (x :: acc) r | [] -> (List.rev acc, []) in
         let (args, res) = split [] rest in
         let impl = String.concat " " res in
         let a i = List.nth args i in
-        let apply o = prev_wseq := !st.x_wseq; let (s', r) = xstep !st o in st := s'; status r in
+        let st = ref !yst.y_x in
+        let apply o = prev_wseq := !yst.y_x.x_wseq; let (s', r) = ystep !yst o in yst := s'; st := s'.y_x; status r in
         let b () = !st.x_b in
         let papply o = let (s', r) = pstep !pst o in pst := s'; status r in
         let m = (try
@@ -73,6 +74,8 @@ let () =
           | "iter" -> kvs_string (m_iter !snap (b ()) (bytes_of_hex (a 0)) (bytes_of_hex (a 1)))
           | "riter" -> kvs_string (m_iter_rev !snap (b ()) (bytes_of_hex (a 0)) (bytes_of_hex (a 1)))
           | "gflags" -> (match x_get_flags !st (bytes_of_hex (a 0)) with Some f -> "f " ^ dec_of_n f | None -> "nf")
+          | "dirty" -> if !yst.y_dirty then "true" else "false"
+          | "sseq" -> dec_of_n !yst.y_sseq
           | "len" -> "len " ^ dec_of_n !st.x_len ^ " size " ^ dec_of_n !st.x_size
           | "iterf" | "riterf" ->
               let l = x_iter_flags !st (bytes_of_hex (a 0)) (bytes_of_hex (a 1)) in
